@@ -111,6 +111,9 @@ func F64(tag string) float64 {
 	v, _ := strconv.ParseUint(s, 16, 64)
 	return math.Float64frombits(v)
 }
+// RandU32 stands in for math/rand.Uint32 during native replays (see report.go: source rewrite through the overlay).
+func RandU32() uint32 { return uint32(nextInt("rand.Uint32", "u32")) }
+
 func Bytes(tag string, n int) []byte {
 	s := next(tag, "bytes")
 	b, _ := hex.DecodeString(s)
